@@ -357,6 +357,106 @@ class Fn:
                     dq.append(s)
         return True
 
+    def counted_loop(self, L):
+        """A loop driven by an integer counter: returns dict(counter, step (+1/-1), init (block, stmt index of the one definition outside the
+        loop), test (block of the exit test), cmp (op with the counter on the left), bound (operand dict or None), update (block)) when
+        * one exit of the loop is a switch, in a block that every iteration passes, on `counter <cmp> bound` with bound a constant or a place that is
+          not a local assigned in the loop,
+        * the counter has exactly one definition outside the loop, which dominates the header, and inside the loop only `counter = counter +- 1`
+          (checked arithmetic included), in one block that every iteration passes and that is in no inner loop.
+        None otherwise."""
+        body, h = L["body"], L["header"]
+        back = [s for (s, d) in L["backedges"]]
+        defs = self.defs()
+        SWAP = {"Lt": "Gt", "Le": "Ge", "Gt": "Lt", "Ge": "Le", "Ne": "Ne", "Eq": "Eq"}
+
+        def copy_src(b, l, depth=0):
+            """local l in block b is a plain copy of another local (within the same block): return the source local"""
+            for st in reversed(self.blocks[b].stmts):
+                if st["k"] == "assign" and st["dst"]["l"] == l and not st["dst"].get("p"):
+                    rv = st["rv"]
+                    if rv["k"] == "use":
+                        o = rv["op"].get("cp") or rv["op"].get("mv")
+                        if o and not o.get("p") and depth < 4:
+                            return copy_src(b, o["l"], depth + 1)
+                    return l
+            return l
+
+        for (s, d) in L["exits"]:
+            t = self.blocks[s].term
+            if t["k"] != "switch" or not all(self.dominates(s, x) for x in back):
+                continue
+            o = t["op"].get("mv") or t["op"].get("cp")
+            if not o or o.get("p"):
+                continue
+            cmpst = [st for st in self.blocks[s].stmts if st["k"] == "assign" and st["dst"]["l"] == o["l"] and st["rv"]["k"] == "binop" and st["rv"]["op"] in SWAP]
+            if not cmpst:
+                continue
+            rv = cmpst[-1]["rv"]
+            for side, other, op in (("a", "b", rv["op"]), ("b", "a", SWAP[rv["op"]])):
+                co = rv[side].get("cp") or rv[side].get("mv")
+                if not co or co.get("p"):
+                    continue
+                c = copy_src(s, co["l"])
+                ds = [x for x in defs.get(c, []) if x[0] in self.reachable()]
+                outside = [x for x in ds if x[0] not in body]
+                inside = [x for x in ds if x[0] in body]
+                if len(outside) != 1 or not inside or any(k != "whole" or i == "term" for (b, i, k) in ds) or not self.dominates(outside[0][0], h):
+                    continue
+                step = None
+                upd = None
+                ok = True
+                for (b, i, k) in inside:
+                    r2 = self.blocks[b].stmts[i]["rv"]
+                    st_ = None
+                    if r2["k"] == "binop" and r2["op"] in ("Add", "Sub"):
+                        src, cst, opn = r2["a"], r2["b"], r2["op"]
+                    elif r2["k"] == "use" and (r2["op"].get("mv") or r2["op"].get("cp")) and (r2["op"].get("mv") or r2["op"].get("cp")).get("p"):
+                        o2 = r2["op"].get("mv") or r2["op"].get("cp")
+                        pj = o2["p"]
+                        tds = [x for x in defs.get(o2["l"], []) if x[0] in self.reachable()]
+                        if len(pj) != 1 or not isinstance(pj[0], dict) or pj[0].get("f") != 0 or len(tds) != 1 or tds[0][1] == "term":
+                            ok = False
+                            break
+                        r3 = self.blocks[tds[0][0]].stmts[tds[0][1]]["rv"]
+                        if r3["k"] != "binop" or r3["op"] not in ("AddWithOverflow", "SubWithOverflow"):
+                            ok = False
+                            break
+                        src, cst, opn = r3["a"], r3["b"], r3["op"].replace("WithOverflow", "")
+                    else:
+                        ok = False
+                        break
+                    so = src.get("cp") or src.get("mv")
+                    if not so or so.get("p") or copy_src(b, so["l"]) != c or cst.get("c", {}).get("int") != 1:
+                        ok = False
+                        break
+                    st_ = 1 if opn == "Add" else -1
+                    if step not in (None, st_) or upd not in (None, b):
+                        ok = False
+                        break
+                    step, upd = st_, b
+                if not ok or step is None or not all(self.dominates(upd, x) for x in back) or any(upd in L2["body"] and L2["header"] != h and L2["body"] < body for L2 in self.loops()):
+                    continue
+                bo = rv[other]
+                bl_ = bo.get("cp") or bo.get("mv")
+                if "c" not in bo:
+                    if not bl_:
+                        continue
+                    root = copy_src(s, bl_["l"]) if not bl_.get("p") else bl_["l"]
+                    if any(x[0] in body for x in defs.get(root, [])) and not (not bl_.get("p") and root != bl_["l"]):
+                        # the bound is re-read each time round (a copy of a field): fine as long as it is a copy made in the test block
+                        if any(x[0] in body and x[0] != s for x in defs.get(root, [])):
+                            continue
+                stay = [x for x in self.succ(s) if x in body]
+                if not stay:
+                    continue
+                nz = t["otherwise"] if all(cv == 0 for cv, _ in t["cases"]) else None
+                if nz is None:
+                    continue
+                return {"counter": c, "step": step, "init": (outside[0][0], outside[0][1]), "test": s, "cmp": op, "bound": bo, "update": upd, "exit": d,
+                        "stay_when_true": nz in body}
+        return None
+
     def control_deps(self, b):
         """Switch blocks that `b` is control-dependent on: one arm always leads to b, another can reach a return without it."""
         out = []
@@ -790,6 +890,8 @@ class Program:
                 kv = ev.known_variant(a)
                 if kv is None:
                     continue
+                if "ControlFlow" in str(rv.get("adt", "")) and kv in ("Ok", "Some"):
+                    kv = "Continue"      # the evaluator looks through Try::branch
                 val = next((v for v, name in rv.get("variants", []) if name == kv), None)
                 if val is None:
                     continue
